@@ -18,7 +18,7 @@ from simkit.pipe import Pipe, open_frontend
 
 ID = "C17"
 LEVEL = "exploration"
-RUNS = {"quick": 1200, "thorough": 50000}
+RUNS = {"quick": 1200, "thorough": 30000}
 CHUNK = 10
 BATCH = 40
 RULE = ("each run is a batch of 40 byte strings parsed in a forked child (so that a killed interpreter is observable "
